@@ -161,6 +161,7 @@ extern "C" void h_clone_model()
     VariablePtr kv2 = kc2->variable(0);
     compareVariable(s.v1, kv1);
     vcheck(kv1->units() == k->units(0), "a cloned variable uses the clone's own units object");
+    vcheck(kv2->units() != nullptr && kv2->units() != s.v2->units(), "a cloned variable never shares a units object with the original (standard-named units included)");
     ResetPtr kr = kc1->reset(0);
     compareReset(s.r, kr);
     vcheck(kr->variable() == kv1 && kr->testVariable() == kv1, "a cloned reset refers to the clone's own variables");
@@ -246,6 +247,11 @@ extern "C" void h_clone_parts()
     vcheck(kr->equals(s.r), "a cloned reset equals the original");
     VariablePtr kv = s.v1->clone();
     compareVariable(s.v1, kv);
+    vcheck(kv->units() != s.v1->units(), "a cloned variable does not share its units object with the original");
+    VariablePtr kw = s.v2->clone();
+    vcheck(kw->units() != nullptr && kw->units() != s.v2->units(), "a cloned variable never shares a units object with the original (standard-named units included)");
+    kw->units()->setName("fortnight");
+    vcheck(s.v2->units()->name() == "second", "renaming the clone's units leaves the original's units alone");
     vcheck(!kv->hasParent() && kv->equivalentVariableCount() == 0, "a cloned variable has no parent and no equivalences");
     UnitsPtr ku = s.u->clone();
     compareUnits(s.u, ku);
